@@ -47,6 +47,15 @@ class Canon(ast.NodeTransformer):
 
     def visit_Call(self, node: ast.Call):
         self.generic_visit(node)
+        # bool(<comparison / boolean expression>) is that expression
+        if isinstance(node.func, ast.Name) and node.func.id == "bool" and len(node.args) == 1 and not node.keywords \
+                and isinstance(node.args[0], (ast.Compare, ast.BoolOp)):
+            return node.args[0]
+        # iterating a dict iterates its keys: tuple(d.keys()) -> tuple(d)
+        if isinstance(node.func, ast.Name) and node.func.id in ("tuple", "list", "set", "sorted", "iter") and len(node.args) == 1 \
+                and isinstance(node.args[0], ast.Call) and isinstance(node.args[0].func, ast.Attribute) and node.args[0].func.attr == "keys" \
+                and not node.args[0].args:
+            node.args[0] = node.args[0].func.value
         name = call_name(node)
         # list comprehension consumed by a reducing builtin -> generator
         if name in ("any", "all", "sum", "tuple", "min", "max", "set", "sorted", "list") and node.args and isinstance(node.args[0], ast.ListComp):
@@ -70,6 +79,10 @@ class Canon(ast.NodeTransformer):
 
     def visit_BinOp(self, node: ast.BinOp):
         self.generic_visit(node)
+        # tuple concatenation: (a, b) + X  ->  (a, b, *X)
+        if isinstance(node.op, ast.Add) and isinstance(node.left, ast.Tuple):
+            extra = list(node.right.elts) if isinstance(node.right, ast.Tuple) else [ast.Starred(value=node.right, ctx=ast.Load())]
+            return ast.Tuple(elts=list(node.left.elts) + extra, ctx=ast.Load())
         # set difference: A - (B | C)  ->  A - B - C
         if isinstance(node.op, ast.Sub) and isinstance(node.right, ast.BinOp) and isinstance(node.right.op, ast.BitOr) \
                 and any(isinstance(x, ast.Set) or (isinstance(x, ast.Call) and isinstance(x.func, ast.Name) and x.func.id in ("set", "frozenset"))
@@ -288,8 +301,11 @@ def outcomes(stmts, scope: Scope | None = None, env: dict | None = None, atom=No
 
     def _finish_return(val, env, conds, events, node, seq=()):
         if isinstance(val, ast.IfExp):
-            _finish_return(val.body, env, conds + [(val.test, True)], events, node, seq + (("cond", val.test, True),))
-            _finish_return(val.orelse, env, conds + [(val.test, False)], events, node, seq + (("cond", val.test, False),))
+            known = eval_bool(val.test, atom) if atom is not None else None
+            if known is not False:
+                _finish_return(val.body, env, conds + [(val.test, True)], events, node, seq + (("cond", val.test, True),))
+            if known is not True:
+                _finish_return(val.orelse, env, conds + [(val.test, False)], events, node, seq + (("cond", val.test, False),))
             return
         if expand and scope is not None and depth < 3 and isinstance(val, ast.Call) and isinstance(val.func, ast.Name):
             f = scope.get(val.func.id)
@@ -306,3 +322,196 @@ def outcomes(stmts, scope: Scope | None = None, env: dict | None = None, atom=No
 
     walk(list(stmts), dict(env or {}), [], [], lambda e, c, ev, sq: done.append(Outcome(c, "fall", None, ev, e, None, list(sq))))
     return done
+
+
+# ---------------------------------------------------------------------------
+# element-wise maps: `acc = []; for v in IT: ... acc.append(X)` == `tuple(F(v) for v in IT)`
+# ---------------------------------------------------------------------------
+
+
+def elementwise_map(func: ast.FunctionDef, scope: Scope | None, atom=None):
+    """If `func` returns one value per element of an iterable, return (iterable AST resolved, element variable,
+    [(conds, value AST or None when the element is skipped)]); else None.  Recognised forms:
+        acc = []                                   return tuple(F(v) for v in IT)      (F: expression, or a helper
+        for v in IT: ... acc.append(X) ...                                             expanded path by path)
+        return tuple(acc)
+    """
+    from .resolve import env_at
+
+    rets = [n for n in ast.walk(func) if isinstance(n, ast.Return) and n.value is not None]
+    top = [r for r in rets if r in func.body]
+    if len(top) != 1 or top[0] is not func.body[-1]:
+        return None
+    val = top[0].value
+    while isinstance(val, ast.Call) and isinstance(val.func, ast.Name) and val.func.id in ("tuple", "list") and len(val.args) == 1:
+        val = val.args[0]
+    if isinstance(val, ast.Name):
+        acc = val.id
+        loops = [s for s in func.body if isinstance(s, ast.For) and any(
+            isinstance(c, ast.Call) and isinstance(c.func, ast.Attribute) and c.func.attr == "append" and norm(c.func.value) == acc
+            for c in ast.walk(s))]
+        inits = [s for s in func.body if isinstance(s, ast.Assign) and any(norm(t) == acc for t in s.targets)]
+        if len(loops) != 1 or len(inits) != 1 or norm(inits[0].value) not in ("[]", "list()") or not isinstance(loops[0].target, ast.Name):
+            return None
+        L = loops[0]
+        env = {k: x for k, x in env_at(L, func).items() if k != acc}
+        paths = []
+        for o in outcomes(L.body, scope, env=env, atom=atom, expand=False):
+            if o.kind not in ("fall", "continue"):
+                return None
+            apps = [rv.args[0] for kind, st, rv in o.seq if kind == "stmt" and isinstance(rv, ast.Call) and isinstance(rv.func, ast.Attribute)
+                    and rv.func.attr == "append" and norm(rv.func.value) == acc and len(rv.args) == 1]
+            if len(apps) > 1:
+                return None
+            paths.append((o.conds, apps[0] if apps else None))
+        return resolved(L.iter, env), L.target.id, paths
+    if isinstance(val, (ast.GeneratorExp, ast.ListComp)) and len(val.generators) == 1 and not val.generators[0].ifs \
+            and isinstance(val.generators[0].target, ast.Name):
+        g = val.generators[0]
+        env = env_at(top[0], func)
+        v = g.target.id
+        env = {k: x for k, x in env.items() if k != v}
+        elt = val.elt
+        paths = []
+        if isinstance(elt, ast.Call) and isinstance(elt.func, ast.Name) and scope is not None and scope.get(elt.func.id) is not None \
+                and expression_body(scope.get(elt.func.id)) is None:
+            h = scope.get(elt.func.id)
+            binding = bind_args(h, elt)
+            if binding is None:
+                return None
+            b2 = dict(env)
+            b2.update({k: resolved(x, env) for k, x in binding.items()})
+            for o in outcomes(_strip(h.body), scope, env=b2, atom=atom, expand=False):
+                if o.kind != "return":
+                    return None
+                paths.append((o.conds, o.value))
+        else:
+            e2 = resolved(elt, env)
+            paths.append(([], inline(e2, scope) if scope is not None else e2))
+        return resolved(g.iter, env), v, paths
+    return None
+
+
+# ---------------------------------------------------------------------------
+# a dictionary filled by one loop == a dict comprehension
+# ---------------------------------------------------------------------------
+
+
+def dict_filled_by_loop(stmts, dname: str, env: dict | None = None, atom=None, cases: bool = False):
+    """D = {}; for T in IT: [if C: [continue]] D[K] = V [else: D[K] = V2]
+         ->   {K: (V if C' else V2) for T in IT if C}
+    Paths of the loop body that store into D are collected with the conditions that precede the store; paths that
+    differ only in the polarity of one condition are merged (same value: the condition is irrelevant; different values:
+    a conditional value).  Returns an ast.DictComp or None when the loop is not of this shape.  With `cases=True` the
+    unmerged store paths are returned instead: (loop target, iterable, key, [(conditions, value)])."""
+    from .paths import eval_bool
+
+    env = dict(env or {})
+    inits = [s_ for s_ in stmts if isinstance(s_, ast.Assign) and any(norm(t) == dname for t in s_.targets)]
+    if len(inits) != 1 or norm(inits[0].value) not in ("{}", "dict()"):
+        return None
+    fills = [s_ for s_ in stmts if isinstance(s_, ast.For) and any(
+        isinstance(x, ast.Subscript) and isinstance(x.ctx, ast.Store) and norm(x.value) == dname for x in ast.walk(s_))]
+    if len(fills) != 1:
+        return None
+    L = fills[0]
+    bound = {n.id for n in ast.walk(L.target) if isinstance(n, ast.Name)}
+    env = {k: v for k, v in env.items() if k not in bound and k != dname}
+
+    def literal(t, p):
+        """canonical (text, polarity, node) of a decided-free condition"""
+        t = canon(t)
+        while isinstance(t, ast.UnaryOp) and isinstance(t.op, ast.Not):
+            t, p = t.operand, not p
+        if isinstance(t, ast.IfExp):
+            v = eval_bool(t.test, atom) if atom is not None else (t.test.value if isinstance(t.test, ast.Constant) else None)
+            if v is not None:
+                return literal(t.body if v else t.orelse, p)
+        return (norm(t), p, t)
+
+    entries = []  # (frozenset of (text, pol), key text, value node)
+    nodes = {}
+    for o in outcomes(L.body, None, env=env, atom=atom, expand=False):
+        stores = [(i, st, rv) for i, (kind, st, rv) in enumerate(o.seq) if kind == "assign" and isinstance(st, ast.Assign)
+                  and isinstance(st.targets[0], ast.Subscript) and norm(st.targets[0].value) == dname]
+        if len(stores) > 1:
+            return None
+        if not stores:
+            continue
+        i, st, rv = stores[0]
+        lits = set()
+        for kind, t, p in o.seq[:i]:
+            if kind == "cond":
+                if atom is not None and eval_bool(t, atom) is not None:
+                    continue
+                tx, pol, node = literal(t, p)
+                if isinstance(node, ast.Constant):
+                    continue
+                lits.add((tx, pol))
+                nodes[tx] = node
+        key = resolved(st.targets[0].slice, o.env)
+        entries.append((frozenset(lits), norm(key), key, rv))
+    if not entries or len({k for _c, k, _kn, _v in entries}) != 1:
+        return None
+    if cases:
+        out = []
+        for c, _k, kn, v in entries:
+            conds = [nodes[tx] if pol else ast.UnaryOp(op=ast.Not(), operand=nodes[tx]) for tx, pol in sorted(c)]
+            out.append((conds, v))
+        return L.target, resolved(L.iter, env), entries[0][2], out
+    work, seen_w = [], set()
+    for c, _k, _kn, v in entries:
+        if (c, norm(v)) not in seen_w:
+            seen_w.add((c, norm(v)))
+            work.append((c, v))
+    changed = True
+    while changed and len(work) > 1:
+        changed = False
+        for a_i, (ca, va) in enumerate(work):
+            for lit in ca:
+                twin = (ca - {lit}) | {(lit[0], not lit[1])}
+                for b_i, (cb, vb) in enumerate(work):
+                    if b_i != a_i and cb == twin:
+                        if norm(va) == norm(vb):
+                            merged = va
+                        else:
+                            t_val, f_val = (va, vb) if lit[1] else (vb, va)
+                            merged = ast.IfExp(test=nodes[lit[0]], body=t_val, orelse=f_val)
+                        work = [w for k_, w in enumerate(work) if k_ not in (a_i, b_i)] + [(ca - {lit}, merged)]
+                        changed = True
+                        break
+                if changed:
+                    break
+            if changed:
+                break
+    if len(work) != 1:
+        return None
+    cset, val = work[0]
+    conds = [nodes[tx] if pol else ast.UnaryOp(op=ast.Not(), operand=nodes[tx]) for tx, pol in sorted(cset)]
+    return ast.DictComp(key=entries[0][2], value=val,
+                        generators=[ast.comprehension(target=L.target, iter=resolved(L.iter, env), ifs=conds, is_async=0)])
+
+
+def list_built_by_loop(stmts, acc: str, env: dict | None = None):
+    """acc = []; for T in IT: ... acc.append(X)   ->   (T, IT resolved, [(conditions, X resolved)])   or None."""
+    env = dict(env or {})
+    inits = [s_ for s_ in stmts if isinstance(s_, ast.Assign) and any(norm(t) == acc for t in s_.targets)]
+    if len(inits) != 1 or norm(inits[0].value) not in ("[]", "list()"):
+        return None
+    fills = [s_ for s_ in stmts if isinstance(s_, ast.For) and any(
+        isinstance(c, ast.Call) and isinstance(c.func, ast.Attribute) and c.func.attr in ("append", "extend", "insert") and norm(c.func.value) == acc
+        for c in ast.walk(s_))]
+    if len(fills) != 1:
+        return None
+    L = fills[0]
+    bound = {n.id for n in ast.walk(L.target) if isinstance(n, ast.Name)}
+    env = {k: v for k, v in env.items() if k not in bound and k != acc}
+    out = []
+    for o in outcomes(L.body, None, env=env, expand=False):
+        apps = [rv for kind, st, rv in o.seq if kind == "stmt" and isinstance(rv, ast.Call) and isinstance(rv.func, ast.Attribute)
+                and norm(rv.func.value) == acc]
+        if len(apps) > 1 or any(a.func.attr != "append" or len(a.args) != 1 for a in apps):
+            return None
+        if apps:
+            out.append(([t if p else ast.UnaryOp(op=ast.Not(), operand=t) for t, p in o.conds], apps[0].args[0]))
+    return L.target, resolved(L.iter, env), out
